@@ -57,7 +57,10 @@ def _run(case, prior=False):
     nk, params = len(case["keys"]), case["params"]
     pop_cols = case["keys"] + [p for p in params if p != "year"]
     kd = forms.get("key_dtype", "str")
-    seq = tuple if forms.get("tuples") else list
+    def seq(xs, pos="values"):
+        """column-name arguments as a list or – where the case says so – as a tuple (the signature allows both)"""
+        t = forms.get("tuples")
+        return tuple(xs) if t is True or (isinstance(t, list) and pos in t) else list(xs)
 
     def keycol(values, data_side):
         """a key column in the dtype of the case: str (object), int64 or pandas categorical"""
@@ -163,7 +166,7 @@ def _run(case, prior=False):
                 try:
                     data = {"frame": frame, "list": lambda: [1.0, 2.0], "empty_list": lambda: [], "none": lambda: None, "str": lambda: "abc",
                             "empty_frame": lambda: frame().iloc[:0]}[kind]()
-                    b.lookup.build_table(data, **{k: seq(v) for k, v in args.items()})
+                    b.lookup.build_table(data, **{k: list(v) for k, v in args.items()})
                     out["badargs"].append("ok")
                 except Exception as e:  # noqa: BLE001
                     out["badargs"].append("err:" + type(e).__name__)
@@ -171,7 +174,7 @@ def _run(case, prior=False):
                 if case["kind"] == "scalar":
                     self.table = b.lookup.build_table(scalar_data(), value_columns=seq(case["values"]))
                 else:
-                    kwargs = {"key_columns": seq(case["keys"]), "parameter_columns": seq(params)}
+                    kwargs = {"key_columns": seq(case["keys"], "keys"), "parameter_columns": seq(params, "params")}
                     if case["explicit_values"]:
                         kwargs["value_columns"] = seq(case["values"])
                     elif forms.get("values_omitted") is False:
@@ -296,7 +299,7 @@ class C15(Prop):
                            + [[rng.randint(2018, 2024), rng.randint(1, 12), rng.randint(1, 28)] for _ in range(6)])
         step_days = rng.choice([1, 1, 1, 2, 183, 365])
         n = rng.choice([1, 2, 3, 4, 6, 8])
-        case = {"kind": kind, "extrapolate": rng.random() < 0.55, "start": start, "step_days": step_days,
+        case = {"kind": kind, "extrapolate": rng.choice([True, True, False, False, None]), "start": start, "step_days": step_days,
                 "keys": [], "params": [], "values": [], "rows": [], "attrs": [{"keys": [], "xs": []} for _ in range(n)],
                 "wellformed": True, "malformed": None, "explicit_values": rng.random() < 0.8, "scalar": None, "scalar_list": False}
         cell = itertools.count(100 * rng.randint(1, 9))
@@ -305,12 +308,21 @@ class C15(Prop):
             case["scalar_list"] = nv > 1 or rng.random() < 0.3
             case["scalar"] = [next(cell) for _ in range(nv)]
             case["values"] = [f"v{j}" for j in range(nv)]
+            form = rng.choice(["list", "tuple", "list_int"]) if case["scalar_list"] else rng.choice(["float", "int", "timedelta", "timestamp"])
+            case["forms"] = {"scalar_form": form, "tuples": rng.random() < 0.3, "first_table": rng.random() < 0.25, "prior": rng.random() < 0.1}
         else:
             nk = rng.choice([0, 1, 1, 2]) if kind == "interp" else rng.choice([1, 2])
             np_ = rng.choice([1, 1, 2, 2, 3]) if kind == "interp" else 0
             nv = rng.choice([1, 1, 2])
             case["keys"] = [f"k{j}" for j in range(nk)]
             case["values"] = [f"v{j}" for j in range(nv)]
+            if case["explicit_values"] and rng.random() < 0.5:
+                case["values"].reverse()              # requested in another order than the data has them
+            case["forms"] = {"key_dtype": rng.choice(["str", "str", "int", "category"]), "col_shuffle": rng.choice([None, rng.randint(0, 999), rng.randint(0, 999)]),
+                             "extra_values": rng.choice([[], [], ["w0"], ["a_extra", "zz_extra"]]) if case["explicit_values"] else [],
+                             "bin_int": rng.random() < 0.5, "attr_int": rng.random() < 0.5,
+                             "tuples": [t for t in ("keys", "params", "values") if rng.random() < 0.4],
+                             "first_table": rng.random() < 0.25, "prior": rng.random() < 0.12, "omit_empty": rng.random() < 0.4}
             params = [f"p{j}" for j in range(np_)]
             if np_ and rng.random() < 0.4:
                 params[rng.randrange(np_)] = "year"
@@ -332,7 +344,7 @@ class C15(Prop):
             rng.shuffle(rows)
             case["rows"] = rows
             # population attributes
-            in_range_only = (not case["extrapolate"]) and rng.random() < 0.6
+            in_range_only = (case["extrapolate"] is False) and rng.random() < 0.6
             for a in case["attrs"]:
                 kc = rng.choice(combos)
                 a["keys"] = list(kc)
@@ -358,19 +370,38 @@ class C15(Prop):
                 idx = [rng.randrange(n) for _ in range(rng.randint(1, n + 2))]      # repeats allowed
             else:
                 idx = rng.sample(range(n), rng.randint(1, n))
-            calls.append({"after": rng.choice([0, 0, 1, 1, 2, 3]), "idx": idx})
+            where = rng.choice(["outside", "outside", "outside", "listener", "listener", "initializer"])
+            call = {"after": rng.choice([0, 0, 1, 1, 2, 3]), "idx": idx, "where": where}
+            if where == "listener":
+                call["after"] = max(call["after"], 1)
+            if where == "initializer":               # the table's first use: inside an initializer during initial population creation
+                call.update(after=0, idx="created")
+            calls.append(call)
         if rng.random() < 0.4:
             at = rng.choice([1, 1, 2])
             case["untrack"] = [[at, sorted(rng.sample(range(n), rng.randint(1, n)))]]
             for c in calls:
-                if rng.random() < 0.7:
+                if rng.random() < 0.7 and c["where"] != "initializer":
                     c["after"] = max(c["after"], at + rng.choice([0, 0, 1]))
         else:
             case["untrack"] = []
         for c in calls:
-            if rng.random() < 0.25:
+            if rng.random() < 0.25 and c["where"] != "initializer":
                 c["idx"] = rng.choice(["event", "all"])
         case["calls"] = calls
+        # build_table calls the interface must refuse (made before the real table is built)
+        if rng.random() < 0.12:
+            cat = [["list", {"value_columns": []}], ["list", {"value_columns": ["a"]}], ["list", {"value_columns": ["a", "b"], "key_columns": ["k"]}],
+                   ["list", {"value_columns": ["a", "b"], "parameter_columns": ["p"]}], ["empty_list", {"value_columns": []}], ["none", {}],
+                   ["str", {"value_columns": ["a"]}]]
+            if case["rows"]:
+                ok = {"key_columns": case["keys"], "parameter_columns": case["params"], "value_columns": case["values"]}
+                cat += [["frame", {}], ["empty_frame", ok], ["frame", dict(ok, value_columns=["nonexistent"])]]
+                if case["keys"]:
+                    cat.append(["frame", dict(ok, value_columns=[case["keys"][0]])])
+                if case["params"]:
+                    cat.append(["frame", dict(ok, key_columns=case["keys"] + [case["params"][0]])])
+            case["badargs"] = rng.sample(cat, rng.randint(1, 3))
         return case
 
     def _malform(self, rng, case, rows, combos):
@@ -473,6 +504,33 @@ class C15(Prop):
         out.append({"kind": "scalar", "extrapolate": True, "keys": [], "params": [], "values": ["v0", "v1"], "rows": [], "attrs": [{"keys": [], "xs": []}] * 3,
                     "wellformed": True, "malformed": None, "explicit_values": True, "scalar": [7, 8], "scalar_list": True, "start": [2021, 5, 5], "step_days": 1,
                     "untrack": [[1, [2]]], "calls": [{"after": 1, "idx": [2, 0]}, {"after": 1, "idx": "all"}]})
+        # every accepted data / argument form on one grid: int and categorical keys, value columns requested in another order,
+        # unrequested data columns, shuffled column order, integer bin edges, tuples where they work, arguments left out,
+        # default extrapolation (key absent from the configuration), another table built first, an earlier simulation in the
+        # process; first use of the table inside an initializer during population creation, use inside a time_step listener
+        rows_w = [dict(r, bins=[[4 * b for b in r["bins"][0]], [4 * b for b in r["bins"][1]]]) for r in rows2]
+        attrs_w = [{"keys": a["keys"], "xs": [4 * x for x in a["xs"]]} for a in attrs]
+        for kd, ex in (("int", None), ("category", False), ("str", None)):
+            out.append(dict(b2, values=["v1", "v0"], rows=rows_w, attrs=attrs_w, extrapolate=ex,
+                            forms={"key_dtype": kd, "col_shuffle": 7, "extra_values": ["w0", "a_extra"], "bin_int": True, "attr_int": True,
+                                   "tuples": ["keys", "params"], "first_table": True, "prior": kd == "int", "omit_empty": True},
+                            badargs=[["frame", {}], ["list", {"value_columns": ["a"]}], ["none", {}], ["frame", {"key_columns": ["k0"], "parameter_columns": ["p0", "p1"], "value_columns": ["k0"]}]],
+                            calls=[{"after": 0, "idx": "created", "where": "initializer"}, {"after": 1, "idx": [9, 0, 3], "where": "listener"},
+                                   {"after": 2, "idx": "event", "where": "listener"}, {"after": 0, "idx": [5, 4]}, {"after": 1, "idx": [2]}]))
+        out.append(dict(b2, extrapolate=True, attrs=attrs, forms={"tuples": ["keys", "params", "values"]}, calls=[{"after": 0, "idx": [9, 3, 0]}]))
+        out.append(dict(b2, extrapolate=True, attrs=attrs, values=["v0"], rows=[dict(r, vals=r["vals"][:1]) for r in rows2], forms={"tuples": ["values"]},
+                        calls=[{"after": 0, "idx": [2, 1]}]))
+        out.append(dict(cat, forms={"tuples": ["keys", "values"]}, calls=[{"after": 0, "idx": [2, 1, 0]}]))
+        out.append(dict(cat, forms={"key_dtype": "category", "col_shuffle": 3, "extra_values": ["w0"], "tuples": ["keys", "values"], "first_table": True},
+                        values=["v1", "v0"], calls=[{"after": 0, "idx": "created", "where": "initializer"}, {"after": 1, "idx": [2, 0], "where": "listener"}]))
+        out.append(dict(cat, forms={"key_dtype": "int", "omit_empty": True}, explicit_values=False,
+                        calls=[{"after": 0, "idx": [1, 0, 2]}, {"after": 0, "idx": [3]}]))
+        for form, vals in (("int", [7]), ("tuple", [7, 8]), ("list_int", [7, 8, 9]), ("timedelta", [3]), ("timestamp", [11])):
+            out.append({"kind": "scalar", "extrapolate": None, "keys": [], "params": [], "values": [f"v{j}" for j in range(len(vals))], "rows": [],
+                        "attrs": [{"keys": [], "xs": []}] * 3, "wellformed": True, "malformed": None, "explicit_values": True, "scalar": vals,
+                        "scalar_list": len(vals) > 1, "forms": {"scalar_form": form, "tuples": ["values"], "first_table": True}, "start": [2021, 5, 5], "step_days": 1,
+                        "badargs": [["list", {"value_columns": []}], ["empty_list", {"value_columns": []}], ["str", {"value_columns": ["a"]}]],
+                        "calls": [{"after": 0, "idx": "created", "where": "initializer"}, {"after": 1, "idx": [2, 0, 2], "where": "listener"}, {"after": 0, "idx": []}]})
         out.append({"kind": "unit", "bins": [0, 40, 100, 160], "xs": [0, 40, 39, 41, -12, 160, 161, 400, 100]})
         out.append({"kind": "unit", "bins": [5], "xs": [4, 5, 6]})
         return out
@@ -506,6 +564,25 @@ class C15(Prop):
         return _run(case)
 
     @staticmethod
+    def _extrapolate(case):
+        """the extrapolation setting from the configuration of the case (key left out: the documented default, True)"""
+        return True if case.get("extrapolate") is None else case["extrapolate"]
+
+    @staticmethod
+    def _date(case, c):
+        """(year, day of year) of the clock at call `c`, from the configured start and step: after k steps outside, during
+        step k inside a time_step listener, one step before the start inside an initializer (initial population creation)"""
+        import datetime
+        k = {"outside": c["after"], "listener": c["after"] - 1, "initializer": -1}[c.get("where", "outside")]
+        d = datetime.date(*case["start"]) + datetime.timedelta(days=case["step_days"] * k)
+        return d.year, d.timetuple().tm_yday
+
+    @staticmethod
+    def _columns(case):
+        """the columns of the result: as requested, or – inferred – every non-key, non-bin column of the data in sorted order"""
+        return list(case["values"]) if case["explicit_values"] or case["kind"] == "scalar" else sorted(case["values"])
+
+    @staticmethod
     def _call(case, rec):
         """the call of the case with its index resolved to the labels that were actually requested"""
         c = case["calls"][rec["call"]]
@@ -533,7 +610,7 @@ class C15(Prop):
                 L.append(f"scalar {','.join(map(str, case['scalar']))} {','.join(map(str, c['idx'])) or '-'}")
             return L
         ya = case["params"].index("year") if "year" in case["params"] else "-"
-        L.append(f"table {len(case['keys'])} {len(case['params'])} {1 if case['extrapolate'] else 0} {ya}")
+        L.append(f"table {len(case['keys'])} {len(case['params'])} {1 if self._extrapolate(case) else 0} {ya}")
         for r in case["rows"]:
             ks = ",".join(r["keys"]) or "-"
             ss = ",".join(str(self._scale(case, j, b[0])) for j, b in enumerate(r["bins"])) or "-"
@@ -543,7 +620,8 @@ class C15(Prop):
         if obs["build"] == "ok":
             for rec in obs["calls"]:
                 c = self._call(case, rec)
-                L.append(" ".join([f"call {rec['year']} {rec['yday']}"] + [self._req(case, i) for i in c["idx"]]))
+                y, yd = self._date(case, c)
+                L.append(" ".join([f"call {y} {yd}"] + [self._req(case, i) for i in c["idx"]]))
         return L
 
     def compare(self, case, obs, replies):
@@ -645,6 +723,14 @@ class C15(Prop):
                 if not ok:
                     f.append({"sig": "digitize-spec", "msg": f"x={x}/4 against left edges {b} (/4): bin index {i}"})
             return f
+        for (kind, args), got in zip(case.get("badargs", []), obs.get("badargs", [])):
+            if got == "ok":
+                f.append({"sig": "bad-arguments-accepted", "msg": f"build_table({kind}, {args}) was accepted"})
+        if len(obs.get("badargs", [])) != len(case.get("badargs", [])):
+            f.append({"sig": "bad-arguments-missing", "msg": f"{obs.get('badargs')}"})
+        if len(obs["calls"]) != len(case["calls"]):
+            f.append({"sig": "call-missing", "msg": f"{len(obs['calls'])} of {len(case['calls'])} calls were made"})
+        ext = self._extrapolate(case)
         if case["kind"] != "scalar":
             if case["wellformed"] and obs["build"] != "ok":
                 return [{"sig": "wellformed-data-rejected", "msg": f"build_table: {obs['build']}"}]
@@ -659,7 +745,11 @@ class C15(Prop):
             c = self._call(case, rec)
             where = (f"call {c['idx']}{'' if c['spec'] == 'labels' else ' = ' + c['spec']} after {c['after']} steps "
                      f"(clock {rec['year']} day {rec['yday']}, untracked {rec['untracked']})")
-            leap_dec31 = has_year and rec["yday"] == 366
+            year, yday = self._date(case, c)
+            if (rec["year"], rec["yday"]) != (year, yday):
+                f.append({"sig": "clock-date", "msg": f"{where}: start {case['start']}, step {case['step_days']} days give {year} day {yday}"})
+                continue
+            leap_dec31 = has_year and yday == 366
             if case["kind"] == "scalar":
                 want = [[i, list(case["scalar"])] for i in c["idx"]]
                 if rec["outcome"] != "ok":
@@ -669,18 +759,21 @@ class C15(Prop):
                 elif (rec["type"] == "Series") != (len(case["scalar"]) == 1):
                     f.append({"sig": "result-shape", "msg": f"{where}: {rec['type']} for {len(case['scalar'])} values"})
                 continue
-            scans = [self._scan(case, i, self._plausible_years(rec["year"], rec["yday"])) for i in c["idx"]]
+            scans = [self._scan(case, i, self._plausible_years(year, yday)) for i in c["idx"]]
             # what the code's own year value (year + tm_yday/365.25) selects – only used to name the known finding F16
-            code = [self._scan(case, i, self._code_year(rec["year"], rec["yday"])) for i in c["idx"]] if leap_dec31 else None
+            code = [self._scan(case, i, self._code_year(year, yday)) for i in c["idx"]] if leap_dec31 else None
             unknown = [i for i, s in zip(c["idx"], scans) if s[0] == "unknown-key"]
             if unknown:
                 if rec["outcome"] == "ok":
                     f.append({"sig": "unknown-key-accepted", "msg": f"{where}: simulants {unknown} have key values without data"})
                 continue
-            must_reject = (not case["extrapolate"]) and (any(s[0] == "outside" for s in scans) or any(s[2] == "all" for s in scans))
-            may_reject = (not case["extrapolate"]) and any(s[2] == "some" for s in scans)
+            must_reject = (not ext) and (any(s[0] == "outside" for s in scans) or any(s[2] == "all" for s in scans))
+            may_reject = (not ext) and any(s[2] == "some" for s in scans)
             if must_reject:
-                if rec["outcome"] == "ok":
+                if rec["outcome"] == "ok" and leap_dec31 and not any(s[0] == "outside" for s in scans) and not any(s[2] == "all" for s in code):
+                    # F16 again: the code's year value (year + 366/365.25) is inside the bins although the clock's year is not
+                    f.append({"sig": "year-param-outside-clock-year", "msg": f"{where}: extrapolation is off and the clock's year lies outside the year bins, yet the call was accepted: {rec['cells']}"})
+                elif rec["outcome"] == "ok":
                     f.append({"sig": "extrapolation-accepted", "msg": f"{where}: extrapolation is off and some value lies outside the bins, yet {rec['cells']}"})
                 continue
             if rec["outcome"] != "ok":
@@ -695,8 +788,8 @@ class C15(Prop):
                 missing = [i for i in c["idx"] if i not in rec["index"]]
                 f.append({"sig": "result-index", "msg": f"{where}: result index {rec['index']}" + (f"; requested labels {missing} are missing" if missing else "")})
                 continue
-            if rec["columns"] != case["values"]:
-                f.append({"sig": "result-columns", "msg": f"{where}: columns {rec['columns']}, value columns {case['values']}"})
+            if rec["columns"] != self._columns(case):
+                f.append({"sig": "result-columns", "msg": f"{where}: columns {rec['columns']}, value columns {self._columns(case)} ({'requested' if case['explicit_values'] else 'inferred'})"})
             if (rec["type"] == "Series") != (len(case["values"]) == 1):
                 f.append({"sig": "result-shape", "msg": f"{where}: {rec['type']} for {len(case['values'])} value columns"})
             for i, row, s in zip(c["idx"], rec["cells"], scans):
@@ -738,17 +831,25 @@ class C15(Prop):
             b = case["bins"]
             return t + ["digitize:" + ("below" if x < b[0] else "on-edge" if x in b else "above" if x > b[-1] else "between") for x in case["xs"]]
         t.append("build:" + ("ok" if obs["build"] == "ok" else "rejected"))
+        t += ["bad-arguments:" + ("refused" if r != "ok" else "accepted") for r in obs.get("badargs", [])]
         if case["kind"] == "scalar":
-            t.append("scalar:" + ("list" if case["scalar_list"] else "number") + f":{len(case['scalar'])}")
+            t.append("scalar:" + (case.get("forms", {}).get("scalar_form") or ("list" if case["scalar_list"] else "float")) + f":{len(case['scalar'])}")
         else:
             t += [f"keys:{len(case['keys'])}", f"params:{len(case['params'])}", f"values:{len(case['values'])}",
                   "value-columns:" + ("explicit" if case["explicit_values"] else "inferred")]
             if case["malformed"]:
                 t.append("malformed:" + case["malformed"])
+            fm = case.get("forms", {})
+            t.append("key-dtype:" + fm.get("key_dtype", "str")) if case["keys"] else None
+            t += [f"form:{k}" for k in ("bin_int", "attr_int", "first_table", "prior", "omit_empty") if fm.get(k)]
+            t += [f"form:tuple-{pos}" for pos in (fm.get("tuples") or [])] if isinstance(fm.get("tuples"), list) else []
+            t.append("form:columns-shuffled") if fm.get("col_shuffle") is not None else None
+            t.append("form:unrequested-data-columns") if fm.get("extra_values") else None
+            t.append("form:values-requested-in-other-order") if case["explicit_values"] and case["values"] != sorted(case["values"]) else None
             if "year" in case["params"]:
                 t.append("year-parameter")
             if case["kind"] == "interp":
-                t.append("extrapolate:" + ("on" if case["extrapolate"] else "off"))
+                t.append("extrapolate:" + ("default" if case.get("extrapolate") is None else "on" if case["extrapolate"] else "off"))
                 groups = {tuple(r["keys"]) for r in case["rows"]}
                 if len({tuple(sorted({tuple(map(tuple, r["bins"])) for r in case["rows"] if tuple(r["keys"]) == k})) for k in groups}) > 1:
                     t.append("bins-differ-between-key-groups")
@@ -757,6 +858,7 @@ class C15(Prop):
             t.append("call:" + ("ok" if rec["outcome"] == "ok" else "no-table" if rec["outcome"] == "no-table" else "rejected:" + rec["outcome"][4:]))
             idx = c["idx"]
             t.append("request:" + c["spec"])
+            t.append("where:" + c.get("where", "outside"))
             if set(idx) & set(rec["untracked"]):
                 t.append("request:includes-untracked:" + case["kind"])
             t.append("index:" + ("empty" if not idx else "repeated" if len(set(idx)) < len(idx) else
